@@ -12,6 +12,10 @@
                sub-rectangles that tile.
  P4 closed forms  fint_1/2/4 mutually consistent (exp/erf/Ei uninterpreted, z = s*s).
  P5 time kernel   double_time_integrated_kernel = Fm(b-d) - Fm(b-c) + Fm(a-c) - Fm(a-d), Fm(z) = [z > 0] F(z).
+ P6 rules      the scheme objects the operator actually holds (duff_log_log, log_log and their mirrors, quad_order 4 /
+               12) integrate every monomial x^i y^j, i + j <= 2, over the unit square within 1e-11: P1 hands
+               non-square boxes to the Duffy rule (first panel longer than the second), so a rule that is only
+               valid for integrands symmetric in (x, y) is not good enough (ground rational facts, z3).
 The 1e-7 accuracy statement itself is not decided (no solver for Ei/exp quadrature error)."""
 import itertools
 from fractions import Fraction
@@ -160,6 +164,8 @@ def replay(rp):
                 return timekernel_concrete(vals)
             elif rp['kind'] == 'closedform':
                 return closedform_concrete(rp)
+            elif rp['kind'] == 'rules':
+                return rules_eval(SL, rp['quad_order']) is not None
             elif rp['kind'] == 'variables':
                 return True
             elif rp['kind'] == 'recursion':
@@ -484,6 +490,57 @@ def recursion_worker(case):
     return res
 
 
+# -- P6 rules held by the operator ---------------------------------------------------------------------------
+def rules_worker(quad_order):
+    SL, SLE, Q = slsym.load_sl()
+    eng = Engine(timeout_ms=30000)
+    res = dict(stats=None, violations=[], inconclusive=[], samples=[], functions=[
+        'src/single_layer.py:SingleLayerOperator.__init__', 'src/quadrature.py:DuffyScheme2D',
+        'src/quadrature.py:ProductScheme2D', 'src/quadrature.py:log_quadrature_scheme'], evaluations=0, nontrivial=0)
+    bad = rules_eval(SL, quad_order, eng, res)
+    if bad:
+        name, mir, e, val, want = bad
+        rp = dict(kind='rules', quad_order=quad_order)
+        res['violations'].append(dict(signature='rules:%s' % name, what='the operator\'s %s%s (quad_order=%d) integrates '
+                                      'x^%d y^%d over the unit square to %.12g instead of %.12g: __integrate hands it '
+                                      'non-square boxes [d,b]x[c,d], where the integrand is not symmetric in its two '
+                                      'arguments' % (name, mir and '.mirror_%s()' % mir, quad_order, e[0], e[1], val, want),
+                                      replay=rp, reproduced=True))
+    res['samples'].append(dict(quad_order=quad_order, rules=['duff_log_log', 'log_log']))
+    res['stats'] = eng.stats
+    return res
+
+
+def rules_eval(SL, quad_order, eng=None, res=None):
+    class G:
+        gamma_length = 4.0
+        closed = True
+    with slsym.unpatched():
+        op = SL.SingleLayerOperator(slsym.FakeMesh(G()), quad_order=quad_order)
+        rules = []
+        for name in ('duff_log_log', 'log_log'):
+            s = getattr(op, name)
+            for mir in ('', 'x', 'y'):
+                t = s if not mir else getattr(s, 'mirror_' + mir)()
+                rules.append((name, mir, np.asarray(t.points, dtype=float), np.asarray(t.weights, dtype=float)))
+    tol = Fraction(1, 10**11)
+    for name, mir, pts, wts in rules:
+        P = [[Fraction(float(v)) for v in row] for row in pts]
+        W = [Fraction(float(v)) for v in wts]
+        for e in ((0, 0), (1, 0), (0, 1), (2, 0), (1, 1), (0, 2)):
+            val = sum(w * P[0][k]**e[0] * P[1][k]**e[1] for k, w in enumerate(W))
+            want = Fraction(1, (e[0] + 1) * (e[1] + 1))
+            if eng is None:
+                ok = abs(val - want) <= tol
+            else:
+                res['evaluations'] += 1
+                res['nontrivial'] += 1
+                ok, _ = eng.prove(z3bool(SR.const(abs(val - want)) <= SR.const(tol)), 'rules')
+            if not ok:
+                return name, mir, e, float(val), float(want)
+    return None
+
+
 def run(out):
     quick = out.tier == 'quick'
     maxl, units = (4, 16) if quick else (5, 32)   # cell sizes 1, 2, 4, 8, 16 (32): size ratios up to 16 (32)
@@ -502,7 +559,10 @@ def run(out):
                      ('P2 variables', 'variables_worker'), ('P3 recursion', 'recursion_worker')):
         for r in report.pmap('checks.c01', fn, [0]):
             report.merge_worker(out, r, part=name)
-    out.bounds = dict(parameter_interval='%d symbolic units u, 1e-4 <= u <= 1e3' % units,
+    rr = [4, 12] if quick else [4, 6, 8, 12]
+    for r in report.pmap('checks.c01', 'rules_worker', rr):
+        report.merge_worker(out, r, part='P6 rules held by the operator')
+    out.bounds = dict(rule_orders=rr, parameter_interval='%d symbolic units u, 1e-4 <= u <= 1e3' % units,
                       cells='dyadic cells of level <= %d (level >= 2 when glued)' % maxl,
                       time_configurations='all orderings of a<b, c<d (symbolic reals)')
     out.outside = ['the 1e-7 accuracy of any entry (no decision procedure for quadrature error of Ei/exp integrands)',
